@@ -1,0 +1,15 @@
+//go:build verif
+
+package memidm
+
+import "sync"
+
+// VerifLockHook, when set, is called immediately before every RWMutex acquisition of this package
+// (write is true for Lock, false for RLock). It is only compiled with the verif build tag.
+var VerifLockHook func(mu *sync.RWMutex, write bool) //nolint:gochecknoglobals // Verification hook.
+
+func verifYield(mu *sync.RWMutex, write bool) {
+	if h := VerifLockHook; h != nil {
+		h(mu, write)
+	}
+}
